@@ -648,7 +648,7 @@ const CODES: [publ::ReportErrorCode; 8] = [
 ];
 
 fn space_publication(ctx: &Ctx, fx: &Fx) {
-    let k = ctx.tier.pick(1, 2);
+    let k = 2;
     // --- single-element deltas: star product over the fields
     let sp = ctx.space("pub.delta.single",
         "Message::delta with one element built by Publish/Update/Withdraw::new and ::with_hash_tag; fields kind x tag x uri x content x hash, star product (all fields on the core alphabet, at most k fields on the full one); non-trivial = distinct written documents");
@@ -656,7 +656,8 @@ fn space_publication(ctx: &Ctx, fx: &Fx) {
     let full = [6, fx.n_tags(), fx.rsyncs.len(), fx.contents.len(), fx.hashes.len()];
     // tag core: None, Some(""), Some("a"), and one with every XML-special character
     let special = 1 + fx.texts.iter().position(|t| t == "<&").unwrap_or(3);
-    let core_tag = [0usize, 1, 2, special];
+    let plain = 1 + fx.texts.iter().position(|t| t == "a").unwrap_or(1);
+    let core_tag = [0usize, 1, plain, special];
     let cores: [&[usize]; 5] = [&[0, 1, 2, 3, 4, 5], &core_tag, &[1, 3], &[0, 3], &[2]];
     let cases = star(&full, &cores, k);
     run_cases(&cases, &col, |c, l| {
@@ -774,20 +775,21 @@ fn space_provisioning(ctx: &Ctx, fx: &Fx) {
     let k = ctx.tier.pick(1, 2);
     let nh = fx.handles.len();
     let special = fx.texts.iter().position(|t| t == "<&").map(|p| p - 1).unwrap_or(2);
-    let core_class = [0usize, special];
-    let core_h = [0usize, nh - 4];       // "a" and the 254-octet handle
-    let long_h = [nh - 3];                // 255 octets
+    let plain = fx.texts.iter().position(|t| t == "a").map(|p| p - 1).unwrap_or(0);
+    let core_class = [plain, special];
+    let core_h = [0usize, nh - 4];       // "-" and 255 x "a"
+    let long_h = [nh - 3];                // 255 x "/"
 
     // --- list, revoke, revoke_response, error_response
     let sp = ctx.space("prov.simple",
         "Message::list over sender x recipient handles; revoke and revoke_response (via From<&RevocationRequest>) over handles x class name x key; not_performed_response for all 11 codes; star product; non-trivial = distinct written documents");
     let col = Collector::new(sp.clone());
-    let cases = star(&[nh, nh], &[&core_h, &core_h], k);
+    let cases = star(&[nh, nh], &[&core_h, &core_h], 2);
     run_cases(&cases, &col, |c, l| {
         let m = prov::Message::list(fx.handle(c[0]), fx.handle(c[1]));
         roundtrip(ctx, "prov", l, &m, &|| format!("prov.list({})", show_hh(fx, c[0], c[1])), &prov_write, &prov_parse);
     });
-    let cases = star(&[2, nh, nh, fx.n_classes(), fx.keys.len()], &[&[0, 1], &core_h, &long_h, &core_class, &[2, 3]], k);
+    let cases = star(&[2, nh, nh, fx.n_classes(), fx.keys.len()], &[&[0, 1], &core_h, &long_h, &core_class, &[2, 3]], 2);
     run_cases(&cases, &col, |c, l| {
         let req = prov::RevocationRequest::new(fx.class(c[3]), fx.keys[c[4]]);
         let m = if c[0] == 0 { prov::Message::revoke(fx.handle(c[1]), fx.handle(c[2]), req) }
@@ -808,17 +810,20 @@ fn space_provisioning(ctx: &Ctx, fx: &Fx) {
     }}
     col.merge(l);
     sp.sample_str(|| String::from_utf8_lossy(&prov_write(&prov::Message::revoke(fx.handle(0), fx.handle(1), prov::RevocationRequest::new(fx.class(special), fx.keys[3])))).into_owned());
-    sp.set("alphabet_sizes", serde_json::json!({"handles": nh, "class_names": fx.n_classes(), "keys": fx.keys.len(), "k": k}));
-    col.finish(true, &format!("star product, k = {k}; all 11 codes"));
+    sp.set("alphabet_sizes", serde_json::json!({"handles": nh, "class_names": fx.n_classes(), "keys": fx.keys.len(), "k": 2}));
+    col.finish(true, "star product, k = 2; all 11 codes");
 
     // --- issue
     let sp = ctx.space("prov.issue",
-        "Message::issue: class name x limit (None or every AS / IPv4 / IPv6 atom, full product of the three) x CSR x handles; star product over class name and handles, full product over the limit; non-trivial = distinct written documents");
+        "Message::issue: class name x limit (None or every AS / IPv4 / IPv6 atom) x CSR x handles; the full product of the three limit fields on core handles / class / CSR, plus the star product over all fields; non-trivial = distinct written documents");
     let col = Collector::new(sp.clone());
     let (na, nb, nc) = (fx.asn.len() + 1, fx.v4.len() + 1, fx.v6.len() + 1);
     let all_a: Vec<usize> = (0..na).collect(); let all_b: Vec<usize> = (0..nb).collect(); let all_c: Vec<usize> = (0..nc).collect();
     let all_csr: Vec<usize> = (0..fx.csrs.len()).collect();
-    let cases = star(&[nh, fx.n_classes(), na, nb, nc, fx.csrs.len()], &[&core_h, &core_class[1..], &all_a, &all_b, &all_c, &all_csr[..1]], 1);
+    // full limit product on core handles / class / CSR, then the star over everything with a 2-point limit core
+    let mut cases = star(&[nh, fx.n_classes(), na, nb, nc, fx.csrs.len()], &[&core_h, &core_class[1..], &all_a, &all_b, &all_c, &all_csr[..1]], 0);
+    cases.extend(star(&[nh, fx.n_classes(), na, nb, nc, fx.csrs.len()], &[&core_h, &core_class, &[0, 6], &[0, 8], &[0, 7], &all_csr[..1]], k));
+    cases.sort(); cases.dedup();
     run_cases(&cases, &col, |c, l| {
         let m = prov::Message::issue(fx.handle(c[0]), fx.handle(0), prov::IssuanceRequest::new(fx.class(c[1]), fx.limit(c[2], c[3], c[4]), fx.csrs[c[5]].1.clone()));
         roundtrip(ctx, "prov", l, &m, &|| format!("prov.issue({},class={},{},csr={})", show_hh(fx, c[0], 0), show(&trunc(&fx.texts[c[1] + 1], 80)),
@@ -826,7 +831,7 @@ fn space_provisioning(ctx: &Ctx, fx: &Fx) {
     });
     sp.set("limit_product", serde_json::json!(na * nb * nc));
     sp.sample_str(|| String::from_utf8_lossy(&prov_write(&prov::Message::issue(fx.handle(0), fx.handle(0), prov::IssuanceRequest::new(fx.class(special), fx.limit(6, 8, 8), fx.csrs[0].1.clone())))).into_owned());
-    col.finish(true, "full limit product x star(k = 1) over class name, handle, CSR");
+    col.finish(true, &format!("full limit product + star product, k = {k}"));
 
     // --- issue_response: one class with one certificate, star over all fields
     let sp = ctx.space("prov.issue_response",
@@ -834,10 +839,11 @@ fn space_provisioning(ctx: &Ctx, fx: &Fx) {
     let col = Collector::new(sp.clone());
     let nr = fx.rsyncs.len();
     let full = [fx.n_classes(), nr, fx.asn.len(), fx.v4.len(), fx.v6.len(), fx.times.len(), nr, na, nb, nc, fx.certs.len(), fx.certs.len()];
-    let cores: [&[usize]; 12] = [&core_class[1..], &[3], &[5], &[7], &[7], &[0], &[4], &[0], &[3], &[0], &[1], &[0]];
+    let cores: [&[usize]; 12] = [&core_class, &[1], &[5], &[7], &[7], &[0], &[1], &[0], &[3], &[0], &[1], &[0]];
     let mut cases = star(&full, &cores, k);
     for a in 0..fx.asn.len() { for b in 0..fx.v4.len() { for c in 0..fx.v6.len() {
         cases.push(vec![special, 3, a, b, c, 0, 4, 0, 3, 0, 1, 0]);
+        cases.push(vec![plain, 1, a, b, c, 0, 1, a + 1, b + 1, c + 1, 2, 1]);
     }}}
     run_cases(&cases, &col, |c, l| {
         let cl = Class { name: c[0], url: c[1], asn: c[2], v4: c[3], v6: c[4], time: c[5], signing: c[11],
@@ -879,13 +885,14 @@ fn space_provisioning(ctx: &Ctx, fx: &Fx) {
 fn idx_err<E: std::fmt::Display>(e: E) -> String { e.to_string() }
 
 fn space_idexchange(ctx: &Ctx, fx: &Fx) {
-    let k = ctx.tier.pick(1, 2);
+    let k = 2;
     let nh = fx.handles.len();
     let sp = ctx.space("idex.all",
         "ChildRequest::new, ParentResponse::new, PublisherRequest::new (+ set_publisher_handle), RepositoryResponse::new over id-cert contents (2 real ID certificates, 1/2/4 octets, 1 KiB) x handles x service URIs x tags x sia_base x rrdp URI (None or https); star product; non-trivial = distinct written documents");
     let col = Collector::new(sp.clone());
     let special = 1 + fx.texts.iter().position(|t| t == "<&").unwrap_or(3);
-    let core_tag = [0usize, 1, special];
+    let plain = 1 + fx.texts.iter().position(|t| t == "a").unwrap_or(1);
+    let core_tag = [0usize, 1, plain, special];
     let core_h = [0usize, nh - 3];
     let core_id = [0usize, 4];
     let nid = fx.idcerts.len();
@@ -925,4 +932,308 @@ fn space_idexchange(ctx: &Ctx, fx: &Fx) {
     sp.set("alphabet_sizes", serde_json::json!({"id_certs": nid, "handles": nh, "service_uris": ns, "tags": fx.n_tags(), "rsync": nr, "https": nhs, "k": k}));
     sp.sample_str(|| String::from_utf8_lossy(&idx::RepositoryResponse::new(id(2), fx.handle(3), fx.services[ns - 4].clone(), fx.rsyncs[3].clone(), Some(fx.httpss[4].clone()), fx.tag(special)).to_xml_vec()).into_owned());
     col.finish(true, &format!("star product, k = {k}"));
+}
+
+//============ Messages obtained by decoding documents =======================
+
+#[derive(Clone, Copy, PartialEq, Eq, Debug)]
+enum Parser { Prov, Pub, Child, Parent, Publisher, Repo }
+
+const PARSERS: [Parser; 6] = [Parser::Prov, Parser::Pub, Parser::Child, Parser::Parent, Parser::Publisher, Parser::Repo];
+
+impl Parser {
+    fn name(self) -> &'static str {
+        match self { Parser::Prov => "provisioning", Parser::Pub => "publication", Parser::Child => "child_request",
+            Parser::Parent => "parent_response", Parser::Publisher => "publisher_request", Parser::Repo => "repository_response" }
+    }
+    /// Parses; Ok(re-written document) when accepted, Err(error class) when rejected.
+    fn run(self, b: &[u8]) -> Result<Box<dyn FnOnce() -> Option<bool>>, &'static str> {
+        fn xml_class(e: &rpki::xml::decode::Error) -> &'static str {
+            match e { rpki::xml::decode::Error::Xml(_) => "rejected-xml-syntax", rpki::xml::decode::Error::XmlAttr(_) => "rejected-xml-attribute",
+                rpki::xml::decode::Error::Malformed => "rejected-malformed" }
+        }
+        // after acceptance: does the accepted message survive its own round trip? (informational)
+        macro_rules! again { ($m:expr, $write:expr, $parse:expr) => {{
+            let m = $m; Ok(Box::new(move || { let d = $write(&m); $parse(&d).ok().map(|b| b == m) }) as Box<dyn FnOnce() -> Option<bool>>)
+        }}}
+        match self {
+            Parser::Prov => match prov::Message::decode(b) {
+                Ok(m) => again!(m, prov_write, prov_parse),
+                Err(prov::Error::XmlError(e)) => Err(xml_class(&e)),
+                Err(prov::Error::InvalidCsrSyntax(_)) => Err("rejected-csr"), Err(prov::Error::CertSyntax(_)) => Err("rejected-cert"),
+                Err(_) => Err("rejected-other"),
+            },
+            Parser::Pub => match publ::Message::decode(b) {
+                Ok(m) => again!(m, pub_write, pub_parse),
+                Err(publ::Error::XmlError(e)) => Err(xml_class(&e)), Err(_) => Err("rejected-other"),
+            },
+            Parser::Child => match idx::ChildRequest::parse(b) {
+                Ok(m) => again!(m, |m: &idx::ChildRequest| m.to_xml_vec(), |d: &Vec<u8>| idx::ChildRequest::parse(d.as_slice())),
+                Err(idx::Error::InvalidXml(e)) => Err(xml_class(&e)), Err(_) => Err("rejected-other"),
+            },
+            Parser::Parent => match idx::ParentResponse::parse(b) {
+                Ok(m) => again!(m, |m: &idx::ParentResponse| m.to_xml_vec(), |d: &Vec<u8>| idx::ParentResponse::parse(d.as_slice())),
+                Err(idx::Error::InvalidXml(e)) => Err(xml_class(&e)), Err(_) => Err("rejected-other"),
+            },
+            Parser::Publisher => match idx::PublisherRequest::parse(b) {
+                Ok(m) => again!(m, |m: &idx::PublisherRequest| m.to_xml_vec(), |d: &Vec<u8>| idx::PublisherRequest::parse(d.as_slice())),
+                Err(idx::Error::InvalidXml(e)) => Err(xml_class(&e)), Err(_) => Err("rejected-other"),
+            },
+            Parser::Repo => match idx::RepositoryResponse::parse(b) {
+                Ok(m) => again!(m, |m: &idx::RepositoryResponse| m.to_xml_vec(), |d: &Vec<u8>| idx::RepositoryResponse::parse(d.as_slice())),
+                Err(idx::Error::InvalidXml(e)) => Err(xml_class(&e)), Err(_) => Err("rejected-other"),
+            },
+        }
+    }
+}
+
+/// Round trip of a message obtained from `doc` through parser `p` (fields the
+/// constructors cannot set: tags on requests, absent descriptions, failed PDUs ...).
+fn seed_case(ctx: &Ctx, l: &mut Local, p: Parser, name: &str, doc: &[u8], must_parse: bool) {
+    let wit = || format!("seed.{}({name})", p.name());
+    macro_rules! go { ($parse:expr, $write:expr) => {{
+        match guard(|| $parse(doc)) {
+            Err(pn) => { l.evals += 1; ctx.fail(&format!("C11.parse.nopanic.{}", p.name()), wit(), pn) }
+            Ok(Err(e)) => { l.evals += 1; l.bump("seed-not-accepted");
+                if must_parse { ctx.machinery_error(format!("hand-written seed {name} is not accepted by {}: {e}", p.name())) } }
+            Ok(Ok(m)) => roundtrip(ctx, "seed", l, &m, &wit, &$write, &$parse),
+        }
+    }}}
+    match p {
+        Parser::Prov => go!(prov_parse, prov_write),
+        Parser::Pub => go!(pub_parse, pub_write),
+        Parser::Child => go!(|b: &[u8]| idx::ChildRequest::parse(b).map_err(idx_err), |m: &idx::ChildRequest| m.to_xml_vec()),
+        Parser::Parent => go!(|b: &[u8]| idx::ParentResponse::parse(b).map_err(idx_err), |m: &idx::ParentResponse| m.to_xml_vec()),
+        Parser::Publisher => go!(|b: &[u8]| idx::PublisherRequest::parse(b).map_err(idx_err), |m: &idx::PublisherRequest| m.to_xml_vec()),
+        Parser::Repo => go!(|b: &[u8]| idx::RepositoryResponse::parse(b).map_err(idx_err), |m: &idx::RepositoryResponse| m.to_xml_vec()),
+    }
+}
+
+const PUB_NS: &str = "http://www.hactrn.net/uris/rpki/publication-spec/";
+const PROV_NS: &str = "http://www.apnic.net/specs/rescerts/up-down/";
+const SETUP_NS: &str = "http://www.hactrn.net/uris/rpki/rpki-setup/";
+
+fn space_seeds(ctx: &Ctx, fx: &Fx) {
+    let sp = ctx.space("seed.decoded",
+        "messages obtained through the public decoders from the repository's captured documents and from hand-written documents that set fields no constructor can set (tag on child_request and report_error, failed_pdu, absent description / error_text, referral and offer elements, suggested_sia_head, comments, single-quoted attributes, character references); then parse(write(m)) == m and well-formedness; non-trivial = distinct written documents");
+    let col = Collector::new(sp.clone());
+    let mut l = Local::default();
+    for f in ["error-reply", "list-reply-empty-short", "list-reply-empty", "list-reply-single", "list-reply", "list", "publish-empty-short", "publish-empty", "publish-multi", "publish-single", "success-reply"] {
+        seed_case(ctx, &mut l, Parser::Pub, f, &read(&format!("ca/rfc8181/{f}.xml")), false);
+    }
+    for f in ["not-performed-response", "revoke-req", "revoke-response"] {
+        seed_case(ctx, &mut l, Parser::Prov, f, &read(&format!("ca/rfc6492/{f}.xml")), false);
+    }
+    for f in ["afrinic-response.der", "apnic-response.der", "apnic-testbed-response.der", "issue-response.der", "issue.der", "list-response.ber", "list.der"] {
+        seed_case(ctx, &mut l, Parser::Prov, f, &cms_xml(&format!("ca/rfc6492/{f}")), false);
+    }
+    for (f, p) in [("afrinic-parent-response", Parser::Parent), ("apnic-parent-response", Parser::Parent), ("krill-0-9-parent-response", Parser::Parent),
+                   ("rpkid-parent-response-offer", Parser::Parent), ("rpkid-parent-response-referral", Parser::Parent),
+                   ("apnic-repository-response", Parser::Repo), ("krill-0-9-repository-response", Parser::Repo),
+                   ("rpkid-child-id", Parser::Child), ("rpkid-publisher-request", Parser::Publisher)] {
+        seed_case(ctx, &mut l, p, f, &read(&format!("ca/rfc8183/{f}.xml")), false);
+    }
+    // hand-written documents
+    let h = fx.hashes[2];
+    let hand: Vec<(Parser, &str, String)> = vec![
+        (Parser::Child, "child_request.tag", format!("<child_request xmlns=\"{SETUP_NS}\" version=\"1\" child_handle=\"c\" tag=\"t&amp;&lt;&quot;&#39;g\"><child_bpki_ta>QUJD</child_bpki_ta></child_request>")),
+        (Parser::Child, "child_request.single-quoted", format!("<?xml version='1.0' encoding='UTF-8'?>\n<!-- c --><child_request xmlns='{SETUP_NS}' version='1' child_handle='c' tag='say \"hi\"'>\n<child_bpki_ta>\n QU JD\n</child_bpki_ta><!-- c --></child_request>\n")),
+        (Parser::Parent, "parent_response.offer-first", format!("<parent_response xmlns=\"{SETUP_NS}\" version=\"1\" service_uri=\"http://h/a?b&amp;c\" child_handle=\"c\" parent_handle=\"p\"><offer/><parent_bpki_ta>QUJD</parent_bpki_ta><referral referrer=\"x\">QUJD</referral></parent_response>")),
+        (Parser::Prov, "error_response.no-description", format!("<message xmlns=\"{PROV_NS}\" version=\"1\" sender=\"s\" recipient=\"r\" type=\"error_response\"><status>0</status></message>")),
+        (Parser::Prov, "error_response.max-status", format!("<message xmlns=\"{PROV_NS}\" version=\"1\" sender=\"s\" recipient=\"r\" type=\"error_response\"><status>18446744073709551615</status><description xml:lang=\"en-US\">it's \"so\" > bad</description></message>")),
+        (Parser::Prov, "list.prefixed", format!("<u:message xmlns:u=\"{PROV_NS}\" version=\"1\" sender=\"s\" recipient=\"r\" type=\"list\"/>")),
+        (Parser::Pub, "report_error.tag+failed_pdu.publish", format!("<msg xmlns=\"{PUB_NS}\" version=\"4\" type=\"reply\"><report_error error_code=\"no_object_present\" tag=\"t&amp;1\"><error_text>text with \"quotes\" and 'apostrophes' ></error_text><failed_pdu><publish tag=\"x\" uri=\"rsync://h/m/a&amp;b\" hash=\"{h}\">QUJD</publish></failed_pdu></report_error></msg>")),
+        (Parser::Pub, "report_error.failed_pdu.withdraw", format!("<msg xmlns=\"{PUB_NS}\" version=\"4\" type=\"reply\"><report_error error_code=\"other_error\"><error_text>t</error_text><failed_pdu><withdraw tag=\"\" uri=\"rsync://h/m/a\" hash=\"{h}\"/></failed_pdu></report_error><report_error error_code=\"xml_error\" tag=\"\"><error_text>u</error_text></report_error></msg>")),
+        (Parser::Pub, "report_error.no-error_text", format!("<msg xmlns=\"{PUB_NS}\" version=\"4\" type=\"reply\"><report_error error_code=\"xml_error\"/></msg>")),
+        (Parser::Pub, "publish.no-tag", format!("<msg xmlns=\"{PUB_NS}\" version=\"4\" type=\"query\"><publish uri=\"rsync://h/m/a\">QUJD</publish><withdraw uri=\"rsync://h/m/b\" hash=\"{h}\"/></msg>")),
+        (Parser::Pub, "publish.empty-tag", format!("<msg xmlns=\"{PUB_NS}\" version=\"4\" type=\"query\"><publish tag=\"\" uri=\"rsync://h/m/a\">QUJD</publish></msg>")),
+        (Parser::Pub, "publish.char-refs", format!("<msg xmlns=\"{PUB_NS}\" version=\"4\" type=\"query\"><publish tag=\"&#60;&#x26;&#34;\" uri=\"rsync://h/m/a&#38;b\">QUJD</publish></msg>")),
+    ];
+    for (p, name, doc) in &hand {
+        if let Err(e) = wf_check(doc.as_bytes()) { ctx.machinery_error(format!("hand-written seed {name} is not well-formed: {e}")) }
+        seed_case(ctx, &mut l, *p, name, doc.as_bytes(), true);
+    }
+    // a not-after with fractional seconds (xsd:dateTime admits them; chrono's DateTime carries them)
+    {
+        use chrono::{TimeZone, Utc};
+        for (label, nanos) in [("0.5s", 500_000_000u32), ("1ns", 1)] {
+            let t = Time::new(Utc.with_ymd_and_hms(2030, 1, 2, 3, 4, 5).unwrap() + chrono::Duration::nanoseconds(nanos as i64));
+            let e = prov::ResourceClassEntitlements::new(fx.class(0), ResourceSet::empty(), t, vec![], prov::SigningCert::new(fx.rsyncs[1].clone(), fx.certs[0].1.clone()));
+            let m = prov::Message::list_response(fx.handle(0), fx.handle(1), prov::ResourceClassListResponse::new(vec![e]));
+            roundtrip(ctx, "prov.subsecond", &mut l, &m, &|| format!("prov.list_response(class notafter=2030-01-02T03:04:05Z + {label})"), &prov_write, &prov_parse);
+        }
+    }
+    col.merge(l);
+    sp.sample_str(|| hand[6].2.clone());
+    col.finish(true, &format!("30 captured + {} hand-written documents + 2 fractional times", hand.len()));
+}
+
+//============ Parsers on deviating and arbitrary input ======================
+
+const MENU: [u8; 11] = [b'<', b'>', b'&', b'"', b'\'', b'/', b'=', b' ', 0x00, 0xFF, b'a'];
+const MENU2: [u8; 5] = [b'<', b'&', b'"', b'/', 0x00];
+
+struct PLocal { evals: u64, out: BTreeMap<&'static str, u64>, notrt: Vec<String> }
+
+fn parse_case(ctx: &Ctx, p: Parser, input: &[u8], l: &mut PLocal, wit: &dyn Fn() -> String) {
+    l.evals += 1;
+    match guard(|| p.run(input)) {
+        Err(pn) => { *l.out.entry("PANIC").or_insert(0) += 1; ctx.fail(&format!("C11.parse.nopanic.{}", p.name()), wit(), format!("{pn}; input {}", trunc(&hex(input), 200))) }
+        Ok(Err(class)) => *l.out.entry(class).or_insert(0) += 1,
+        Ok(Ok(again)) => {
+            // informational only: accepted deviating documents need not hold protocol-valid fields
+            match guard(again) {
+                Err(pn) => { *l.out.entry("PANIC").or_insert(0) += 1; ctx.fail(&format!("C11.parse.nopanic.{}", p.name()), wit(), format!("re-encoding / re-parsing the accepted message panicked: {pn}")) }
+                Ok(Some(true)) => *l.out.entry("accepted").or_insert(0) += 1,
+                Ok(_) => { *l.out.entry("accepted-but-own-roundtrip-differs").or_insert(0) += 1; if l.notrt.len() < 2 { l.notrt.push(wit()) } }
+            }
+        }
+    }
+}
+
+fn seed_documents(fx: &Fx) -> Vec<(&'static str, Parser, Vec<u8>)> {
+    let t = || Some("t&1".to_string());
+    let id = Base64::from_content(&fx.idcerts[0].1);
+    let cl = Class { name: 0, url: 3, asn: 5, v4: 7, v6: 7, time: 0, signing: 0, issued: vec![Issued { uri: 4, la: 6, lb: 8, lc: 8, cert: 1 }] };
+    let e = class_of(fx, &cl);
+    let mut delta = publ::PublishDelta::empty();
+    delta.add_publish(publ::Publish::new(t(), fx.rsyncs[3].clone(), Base64::from_content(b"abc")));
+    delta.add_update(publ::Update::new(t(), fx.rsyncs[1].clone(), Base64::from_content(b"abcd"), fx.hashes[2]));
+    delta.add_withdraw(publ::Withdraw::new(t(), fx.rsyncs[1].clone(), fx.hashes[2]));
+    let mut er = publ::ErrorReply::for_error(publ::ReportError::with_code(publ::ReportErrorCode::ObjectAlreadyPresent));
+    er.add_error(publ::ReportError::with_code(publ::ReportErrorCode::OtherError));
+    let req = prov::RevocationRequest::new(fx.class(0), fx.keys[2]);
+    let (s, r) = (|| fx.handle::<idx::Sender>(0), || fx.handle::<idx::Recipient>(1));
+    vec![
+        ("prov.list", Parser::Prov, prov_write(&prov::Message::list(s(), r()))),
+        ("prov.list_response", Parser::Prov, prov_write(&prov::Message::list_response(s(), r(), prov::ResourceClassListResponse::new(vec![e.clone()])))),
+        ("prov.issue", Parser::Prov, prov_write(&prov::Message::issue(s(), r(), prov::IssuanceRequest::new(fx.class(0), fx.limit(6, 8, 8), fx.csrs[0].1.clone())))),
+        ("prov.issue_response", Parser::Prov, prov_write(&prov::Message::issue_response(s(), r(), prov::IssuanceResponse::new(
+            e.class_name().clone(), e.resource_set().clone(), e.not_after(), e.issued_certs()[0].clone(), e.signing_cert().clone())))),
+        ("prov.revoke", Parser::Prov, prov_write(&prov::Message::revoke(s(), r(), req.clone()))),
+        ("prov.revoke_response", Parser::Prov, prov_write(&prov::Message::revoke_response(s(), r(), prov::RevocationResponse::from(&req)))),
+        ("prov.error_response", Parser::Prov, prov_write(&prov::Message::not_performed_response(s(), r(), prov::NotPerformedResponse::err_1201()).unwrap())),
+        ("pub.list_query", Parser::Pub, pub_write(&publ::Message::list_query())),
+        ("pub.list_reply", Parser::Pub, pub_write(&publ::Message::list_reply(publ::ListReply::new(vec![
+            publ::ListElement::new(fx.rsyncs[3].clone(), fx.hashes[2]), publ::ListElement::new(fx.rsyncs[1].clone(), fx.hashes[0])])))),
+        ("pub.delta", Parser::Pub, pub_write(&publ::Message::delta(delta))),
+        ("pub.success", Parser::Pub, pub_write(&publ::Message::success())),
+        ("pub.error_reply", Parser::Pub, pub_write(&publ::Message::error(er))),
+        ("pub.error_reply.failed_pdu", Parser::Pub, format!("<msg xmlns=\"{PUB_NS}\" version=\"4\" type=\"reply\">\n  <report_error error_code=\"no_object_present\" tag=\"t\">\n    <error_text>text</error_text>\n    <failed_pdu>\n      <publish tag=\"x\" uri=\"rsync://h/m/a&amp;b\" hash=\"{}\">QUJD</publish>\n    </failed_pdu>\n  </report_error>\n</msg>", fx.hashes[2]).into_bytes()),
+        ("idex.child_request", Parser::Child, idx::ChildRequest::new(id.clone(), fx.handle(0)).to_xml_vec()),
+        ("idex.parent_response", Parser::Parent, idx::ParentResponse::new(id.clone(), fx.handle(0), fx.handle(1), fx.services[fx.services.len() - 4].clone(), t()).to_xml_vec()),
+        ("idex.publisher_request", Parser::Publisher, idx::PublisherRequest::new(id.clone(), fx.handle(0), t()).to_xml_vec()),
+        ("idex.repository_response", Parser::Repo, idx::RepositoryResponse::new(id, fx.handle(0), fx.services[2].clone(), fx.rsyncs[3].clone(), Some(fx.httpss[4].clone()), t()).to_xml_vec()),
+    ]
+}
+
+fn space_parsers(ctx: &Ctx, fx: &Fx) {
+    let docs = seed_documents(fx);
+    let sp = ctx.space("parse.deviations",
+        "one valid document per message type; every single-octet substitution from the menu < > & \" ' / = space NUL 0xFF a, every truncation, every single-octet deletion, every menu octet inserted at every offset, every attribute and element deleted or duplicated (spans from the strict checker), fed to the document's own parser (and every truncation to all six parsers); thorough: also every pair of substitutions from < & \" / NUL on documents under 700 octets; non-trivial = deviating inputs that differ from the seed");
+    for (name, p, d) in &docs {
+        // the seeds must be valid, or the deviations are not "one step away from valid"
+        if guard(|| p.run(d)).ok().and_then(|r| r.ok()).is_none() { ctx.machinery_error(format!("seed document {name} is not accepted by its parser")) }
+    }
+    let notrt: Mutex<Vec<String>> = Mutex::new(Vec::new());
+    let merge = |l: PLocal, nontrivial: u64| {
+        sp.evals(l.evals); sp.nontrivial(nontrivial); sp.merge_outcomes(&l.out);
+        let mut n = notrt.lock().unwrap(); for w in l.notrt { if n.len() < 64 { n.push(w) } }
+    };
+    let new_local = || PLocal { evals: 0, out: BTreeMap::new(), notrt: Vec::new() };
+    for (name, p, d) in &docs {
+        let n = d.len() as u64;
+        // substitutions, deletions, insertions, truncations
+        par_chunks(n + 1, 32, |lo, hi| {
+            let mut l = new_local(); let mut nt = 0u64;
+            let mut buf = Vec::with_capacity(d.len() + 1);
+            for i in lo as usize..hi as usize {
+                parse_case(ctx, *p, &d[..i], &mut l, &|| format!("doc={name} op=truncate@{i}")); if i < d.len() { nt += 1 }
+                for q in PARSERS { if q != *p { parse_case(ctx, q, &d[..i], &mut l, &|| format!("doc={name} op=truncate@{i} parser={}", q.name())); } }
+                for b in MENU {
+                    buf.clear(); buf.extend_from_slice(&d[..i]); buf.push(b); buf.extend_from_slice(&d[i..]);
+                    parse_case(ctx, *p, &buf, &mut l, &|| format!("doc={name} op=insert@{i}:{b:02x}")); nt += 1;
+                }
+                if i == d.len() { continue }
+                buf.clear(); buf.extend_from_slice(&d[..i]); buf.extend_from_slice(&d[i + 1..]);
+                parse_case(ctx, *p, &buf, &mut l, &|| format!("doc={name} op=delete@{i}")); nt += 1;
+                for b in MENU {
+                    if d[i] == b { continue }
+                    buf.clear(); buf.extend_from_slice(d); buf[i] = b;
+                    parse_case(ctx, *p, &buf, &mut l, &|| format!("doc={name} op=sub@{i}:{b:02x}")); nt += 1;
+                }
+            }
+            merge(l, nt);
+        });
+        // structural: attributes and elements
+        match wf_check(d) {
+            Err(e) => ctx.machinery_error(format!("seed document {name} is not well-formed: {e}")),
+            Ok(spans) => {
+                let mut l = new_local(); let mut nt = 0;
+                for (kind, list) in [("attr", &spans.attrs), ("elem", &spans.elems)] {
+                    for (j, (a, b)) in list.iter().enumerate() {
+                        let mut del = d[..*a].to_vec(); del.extend_from_slice(&d[*b..]);
+                        parse_case(ctx, *p, &del, &mut l, &|| format!("doc={name} op=delete-{kind}#{j}@{a}..{b}")); nt += 1;
+                        let mut dup = d[..*b].to_vec(); dup.extend_from_slice(&d[*a..*b]); dup.extend_from_slice(&d[*b..]);
+                        parse_case(ctx, *p, &dup, &mut l, &|| format!("doc={name} op=duplicate-{kind}#{j}@{a}..{b}")); nt += 1;
+                    }
+                }
+                merge(l, nt);
+            }
+        }
+        // pairs of substitutions
+        if ctx.tier.is_thorough() && d.len() < 700 {
+            par_chunks(n, 4, |lo, hi| {
+                let mut l = new_local(); let mut nt = 0u64;
+                let mut buf = d.clone();
+                for i in lo as usize..hi as usize { for j in i + 1..d.len() { for b in MENU2 { for c in MENU2 {
+                    if d[i] == b || d[j] == c { continue }
+                    buf[i] = b; buf[j] = c;
+                    parse_case(ctx, *p, &buf, &mut l, &|| format!("doc={name} op=sub@{i}:{b:02x}+sub@{j}:{c:02x}")); nt += 1;
+                    buf[j] = d[j];
+                }} buf[i] = d[i]; }}
+                merge(l, nt);
+            });
+        }
+    }
+    sp.set("documents", serde_json::json!(docs.iter().map(|(n, _, d)| format!("{n}:{} octets", d.len())).collect::<Vec<_>>()));
+    let mut n = notrt.lock().unwrap().clone(); n.sort(); n.truncate(12);
+    sp.set("accepted_deviations_whose_own_roundtrip_differs_sample", serde_json::json!(n));
+    sp.sample_str(|| String::from_utf8_lossy(&docs[9].2).into_owned());
+    sp.done(true, ctx.tier.pick("deviation bound 1 on 17 documents", "deviation bound 1 on 17 documents; bound 2 (substitution pairs) on documents under 700 octets"));
+
+    let maxlen = ctx.tier.pick(2u32, 3);
+    let sp = ctx.space("parse.short",
+        "every octet string up to the length bound into each of the six parsers; non-trivial = all (every string is distinct)");
+    let total = rpki_verif::engine::enumerate::seq_count(256, maxlen);
+    par_chunks(total, 1 << 14, |lo, hi| {
+        let mut l = new_local();
+        let mut s = Vec::new(); let mut bytes = Vec::new();
+        for i in lo..hi {
+            rpki_verif::engine::enumerate::seq_at(256, maxlen, i, &mut s);
+            bytes.clear(); bytes.extend(s.iter().map(|x| *x as u8));
+            for p in PARSERS { parse_case(ctx, p, &bytes, &mut l, &|| format!("bytes={} parser={}", hex(&bytes), p.name())); }
+        }
+        sp.evals(l.evals); sp.nontrivial(l.evals); sp.merge_outcomes(&l.out);
+    });
+    sp.sample_str(|| format!("\"<a>\" into publication: {:?}", publ::Message::decode(&b"<a>"[..]).err().map(|e| e.to_string())));
+    sp.done(true, &format!("all octet strings of length <= {maxlen} x 6 parsers"));
+}
+
+fn main() {
+    let ctx = Ctx::new("C11", "exploration");
+    ctx.assume("protocol-valid field values: handles [-_A-Za-z0-9/]{1,255} (RFC 8183 pattern; the empty handle the pattern would admit is refused by the library's own FromStr and left out); tags and class names xsd:token over printable ASCII and DEL, class names non-empty, at most 1024 characters; URIs as admitted by uri::Rsync / uri::Https / ServiceUri with RFC 3986 characters; resource sets in canonical form built by FromStr / all() / empty(); not-after times with whole seconds in years 1..9999 (fractional seconds are a separately named oracle); object contents of any length including 0 (RFC 8181 base64 = xsd:base64Binary without minLength); ID certificates non-empty");
+    ctx.assume("non-ASCII field values are outside the property (rejected by ascii_into by design)");
+    ctx.assume("quick-xml, base64, chrono and bcder are trusted as libraries; the well-formedness verdict comes from the checker in this file, quick-xml's raw reader is only a second opinion");
+    let t0 = std::time::Instant::now();
+    let lap = |what: &str| if std::env::var_os("C11_TIMING").is_some() { eprintln!("[timing] {what}: {:.1}s", t0.elapsed().as_secs_f64()) };
+    wf_selftest(&ctx);
+    let fx = Fx::load(&ctx);
+    lap("fixtures");
+    space_publication(&ctx, &fx); lap("publication");
+    space_provisioning(&ctx, &fx); lap("provisioning");
+    space_idexchange(&ctx, &fx); lap("idexchange");
+    space_seeds(&ctx, &fx); lap("seeds");
+    space_parsers(&ctx, &fx); lap("parsers");
+    ctx.finish();
 }
